@@ -20,7 +20,9 @@ ADDENDA = {
     'C03': ' Also: results whose encoding fails with any of six exception kinds; a task that ended must be followed '
            'by a result message.',
     'C04': ' Also: deaths by unnamed (real-time) signals; per-part accounting of imap/imap_unordered with parts '
-           'still running when the loss is reported (each lost part reported once, finished parts delivered).',
+           'still running when the loss is reported (each lost part reported once, finished parts delivered); one '
+           'part of a map outlasting the loss-report period while other owners leave on schedule or die in their '
+           'next job after publishing their part (result read late because of a slow callback).',
     'C05': ' Also: a nearly-late job next to an overdue one in the same scan, a result racing the scanner\'s '
            'decision, tasks that catch the soft limit and run into the hard one; no hard-limit action for a job '
            'that resolved otherwise.',
@@ -30,12 +32,14 @@ ADDENDA = {
     'C08': ' Also: terminate() placed in the middle of a supervision pass (after grow), tasks whose catch-all '
            'handler swallows or translates the exit request.',
     'C09': ' Also: the caller of shrink()/grow()/apply_async descheduled for 0.3-2.5 s at its n-th system call or '
-           'between two lines of the method; jobs with unencodable results counted against the quota.',
+           'between two lines of the method; jobs with unencodable results counted against the quota; every worker '
+           'reaching its quota at one instant under a restart budget (the limiter must not be stepped); a map part '
+           'that outlasts the loss-report period next to recycling.',
     'C12': ' Also: the text must contain the raising source line at every depth.',
     'C15': ' Also: a child forked while the parent holds the object\'s lock (byte copy of the held lock handle + '
            'registered after-fork hooks), object created under a context named fork.',
     'C17': ' Also: timeouts tied to the instant another actor notifies/sets.',
-    'C19': ' Also: zero and negative join timeouts.',
+    'C19': ' Also: zero and negative join timeouts; spawn start method through the repository\'s own _launch.',
     'C20': ' Also: second proxies obtained through a registered callable returning the existing object, proxies '
            're-obtained by name while the last one is released elsewhere, every line of the server\'s '
            'create/incref/decref a pre-emption point (focus: the window between last decrement and disposal).',
